@@ -37,14 +37,21 @@ def _alarm(_s, _f):
     raise Timeout()
 
 
-def with_limit(fn, seconds=10):
-    old = signal.signal(signal.SIGALRM, _alarm)
-    signal.alarm(seconds)
+def with_limit(fn, cpu_seconds=40, wall_seconds=600):
+    """'never hangs' is decided on the CPU time of this process (ITIMER_PROF: a loaded machine does not
+    make a terminating generation look like a hang; unchanged-tree generations need < 4 s of CPU), with
+    a generous wall limit behind it for a generation that blocks without computing."""
+    old_p = signal.signal(signal.SIGPROF, _alarm)
+    old_a = signal.signal(signal.SIGALRM, _alarm)
+    signal.setitimer(signal.ITIMER_PROF, cpu_seconds)
+    signal.alarm(wall_seconds)
     try:
         return fn()
     finally:
+        signal.setitimer(signal.ITIMER_PROF, 0)
         signal.alarm(0)
-        signal.signal(signal.SIGALRM, old)
+        signal.signal(signal.SIGPROF, old_p)
+        signal.signal(signal.SIGALRM, old_a)
 
 
 def gcc_syntax(code: str, td: str, k: int):
@@ -116,7 +123,7 @@ def run(chk: Check, drv: Driver):
                 try:
                     r = with_limit(lambda: generate_code(pr.problem, [KernelType[k] for k in kinds], Language[lang]))
                 except Timeout:
-                    chk.violation("generate_code exceeded the 10 s wall limit", case)
+                    chk.violation("generate_code exceeded the limit (40 s of CPU time)", case)
                     continue
                 except BaseException as e:  # noqa: BLE001
                     f = chk.match_known(lambda f: (f.get("signature", {}).get("kind") == "exception-site" and f["signature"].get("type") == type(e).__name__
@@ -155,7 +162,7 @@ def run(chk: Check, drv: Driver):
             with_limit(lambda: tensor_method(pr.text, pr.fs))
             chk.count("tm_ok")
         except Timeout:
-            chk.violation("tensor_method exceeded the wall limit", case)
+            chk.violation("tensor_method exceeded the limit (40 s of CPU time)", case)
         except (BroadcastTargetIndexError,) as e:
             chk.count("tm_" + type(e).__name__)
         except BaseException as e:  # noqa: BLE001
